@@ -153,7 +153,9 @@ HANDLERS = [
 def _tree():
     """A small site plus things that exist OUTSIDE it (keys that climb out lexically)."""
     n = {
-        "/": mv.Dir(["a", "d", "m", "x.zip", "s.pyg", "e", "t.tal", "g.gz", "h.html"]),
+        "/": mv.Dir(["a", "d", "m", "x.zip", "s.pyg", "e", "t.tal", "g.gz", "h.html", "\udce9"]),
+        "/\udce9": mv.Dir(["f"]),
+        "/\udce9/f": mv.File(b"x\n"),
         "/a": mv.File(b"hello\n"),
         "/d": mv.Dir(["f"]),
         "/d/f": mv.File(b"x\n"),
